@@ -46,10 +46,7 @@ Theorem C05_finalised_exactly_once_under_any_interleaving :
   forall n sched,
   let '(sh, ls) := run Fixed sched (sh0, repeat idle_thread n) in
   (fin sh <= 1)%nat /\ (ar sh = false -> quiescent ls -> fin sh = 1%nat).
-Proof.
-  intros n sched. pose proof (fixed_safe n sched) as S. pose proof (fixed_exactly_once n sched) as E.
-  destruct (run Fixed sched (sh0, repeat idle_thread n)) as [sh ls]. split; [apply S|exact E].
-Qed.
+Proof. exact fixed_finalised_exactly_once. Qed.
 Print Assumptions C05_finalised_exactly_once_under_any_interleaving.
 
 (** The code before /repo 359c201: two racing discards abort the same recording twice. *)
